@@ -438,6 +438,22 @@ fn apply_overrides(state: &mut minidump_processor::ProcessState, x: &mut Toks) {
                 state.symbol_stats.insert(name, minidump_unwind::SymbolStats { symbol_url, loaded_symbols, corrupt_symbols, extra_debug_info });
             }
             "req" => state.requesting_thread = opt_num::<usize>(x.str()),
+            // frame 0 of thread t keeps only the general-purpose registers whose index (in general_purpose_registers() order) is set
+            // in the mask: json_registers must list exactly the valid ones
+            "valid" => {
+                let (t, mask) = (x.usize(), x.usize());
+                if let Some(fr) = state.threads.get_mut(t).and_then(|th| th.frames.get_mut(0)) {
+                    let names: std::collections::HashSet<&'static str> = fr
+                        .context
+                        .general_purpose_registers()
+                        .iter()
+                        .enumerate()
+                        .filter(|(i, _)| *i < 60 && (mask >> *i) & 1 == 1)
+                        .map(|(_, r)| *r)
+                        .collect();
+                    fr.context.valid = MinidumpContextValidity::Some(names);
+                }
+            }
             "trust" => {
                 let (t, fi, v) = (x.usize(), x.usize(), x.usize());
                 use minidump_unwind::FrameTrust::*;
